@@ -15,6 +15,12 @@
       shared with the stored program; `ast_write_counterexample` / `ast_copy_ok` show in the model
       why such a write is observable and why writing to a private copy is not.
 
+    * `every_statement_kind_has_workload`, `every_operand_slot_has_workload` — the statement kinds and the
+      operand positions (Node.Field filled from a value symbol) of lib/parser/parser.y and the cases of
+      `Processor.ExecuteStatement`, regenerated on every run, all have a workload in the dynamic cross-check
+      (harness/cmd/c14/workloads.go, read by the same extractor): a statement kind or operand position added
+      to the grammar without one breaks the obligation.
+
   Trusted (named in the evidence): the extractor's step "syntactic fact ⇒ behaviour of the running
   program" (in particular: callees that receive a syntax tree or a value do not modify / keep it
   beyond what the facts cover), `sync.Pool` behaves as a free list, the Go memory model.
@@ -24,6 +30,7 @@ import Csvq.Model.Pool
 import Csvq.Lemmas.Pool
 import Csvq.Gen.DiscardFacts
 import Csvq.Gen.AstWriteFacts
+import Csvq.Gen.StmtKinds
 
 namespace Csvq.C14
 open Csvq.Pool
@@ -129,6 +136,44 @@ theorem getters_return_copies :
     Gen.getterFacts.all (fun f => f.how == "copy" || f.how == "delegated") = true ∧
     Gen.getterFacts.any (fun f => f.fn == "InlineTableMap.Get" && f.how == "copy") = true ∧
     Gen.getterFacts.any (fun f => f.fn == "ViewMap.Get" && f.how == "copy") = true := by decide
+
+/-! ## 4. What the dynamic cross-check executes is derived from the grammar -/
+
+set_option maxRecDepth 1000000 in
+/-- **every_statement_kind_has_workload.**  Every node type that parser.y builds as a statement (productions typed
+    `<statement>`, plus a bare expression used as a statement) and every case of the type switch in
+    `Processor.ExecuteStatement` is named by a workload of harness/cmd/c14/workloads.go (which the harness executes
+    twice from one syntax tree, re-reading every variable / table cell / cursor row / tree literal in between; it
+    checks on every run that the declared kind does occur in the parsed template).  Reported by vt/p_c14.py as
+    `workload:missing:statement:<Kind>`. -/
+theorem every_statement_kind_has_workload :
+    (Gen.grammarStatementKinds ++ Gen.executedStatementKinds).all (fun k => Gen.workloadStatementKinds.contains k) = true := by
+  decide
+
+set_option maxRecDepth 1000000 in
+/-- **every_operand_slot_has_workload.**  Every position `Node.Field` that an action of parser.y fills from a grammar
+    symbol deriving an arbitrary scalar expression (LIMIT n / n PERCENT, OFFSET, FETCH ABSOLUTE n, SET @%ENV TO v,
+    PRINTF format / values, function / aggregate / analytic arguments, CASE, IN lists, BETWEEN bounds, LIKE
+    patterns, …) has a workload whose hole is at that position (checked on the parsed template on every run); the
+    harness fills the hole with operands of every value type held as tree literal, variable, cursor-fetched
+    variable and table cell.  Reported as `workload:missing:slot:<Node.Field>`. -/
+theorem every_operand_slot_has_workload :
+    Gen.operandSlots.all (fun s => Gen.workloadSlots.contains s) = true := by
+  decide
+
+set_option maxRecDepth 1000000 in
+/-- the extractor did find the grammar (guards against vacuous coverage theorems): the statement kinds, the operand
+    positions and the value symbols include the ones known to exist -/
+theorem grammar_facts_nonempty :
+    50 ≤ Gen.grammarStatementKinds.length ∧ 50 ≤ Gen.executedStatementKinds.length ∧ 60 ≤ Gen.operandSlots.length ∧
+    ["SetEnvVar", "SetFlag", "Chdir", "Execute", "Source", "Trigger", "SelectQuery", "FetchCursor", "BareExpression"].all
+      (fun k => Gen.grammarStatementKinds.contains k) = true ∧
+    ["LimitClause.Value", "OffsetClause.Value", "SetEnvVar.Value", "FetchPosition.Number", "AnalyticFunction.Args",
+     "ListFunction.Args", "JsonQuery.Query", "VariableAssignment.Value", "CaseExprWhen.Condition", "ValueList.Values",
+     "Between.Low", "Like.Pattern", "Function.Args", "Concat.Items", "ElseIf.Condition"].all
+      (fun s => Gen.operandSlots.contains s) = true ∧
+    ["substantial_value", "value", "values", "arguments"].all (fun s => Gen.valueSymbols.contains s) = true := by
+  decide
 
 /-- Why read-only trees matter (a statement about the MODEL): with an in-place store into the shared
     argument list the select clause no longer finds the function under the identifier registered a
